@@ -1,6 +1,7 @@
 import Mdsort.Bytes
 import Mdsort.Model.Decode
 import Mdsort.Spec.Decode
+import Mdsort.Spec.DecodeRFC
 import Mdsort.Model.Header
 import Mdsort.Model.Mime
 import Mdsort.Model.MimeEntity
@@ -34,6 +35,8 @@ import Mdsort.Model.L0.Buffer
 import Mdsort.Model.Start
 import Driver.Sched
 import Mdsort.Model.Opts
+import Mdsort.Model.Strptime
+import Mdsort.Spec.Rfc5322Date
 
 /-!
 Line-protocol driver: one request per line `<side> <op> <hexarg>*`, one response
@@ -67,6 +70,8 @@ opaque mbtowcFFI (str : @& ByteArray) (off : UInt64) : UInt64
 /-- `wcwidth + 1`. -/
 @[extern "mdsort_wcwidth"]
 opaque wcwidthFFI (wc : UInt32) : UInt32
+@[extern "mdsort_timefmt"]
+opaque timefmtFFI (fmt : @& ByteArray) (tz : @& ByteArray) (t : UInt64) : Array UInt32
 
 def hexDigit (n : UInt8) : Char :=
   if n < 10 then Char.ofNat (48 + n.toNat) else Char.ofNat (87 + n.toNat)
@@ -243,7 +248,14 @@ def handleSpecHcond (args : List Bytes) : String :=
         | _ => "ERROR"
   | _ => "BADOP"
 
-def strptimeEnv (s : Bytes) : Option (Model.Tm × Bytes) :=
+/-- `MDSORT_STRPTIME=model` in the driver's environment: the evaluator's `strptime` oracle is the executable model
+`Model.timeparseC` (Model/Strptime.lean) instead of the platform's `strptime` through the FFI.  The C15 check runs its date
+cases both ways. -/
+initialize strptimeByModel : Bool ← do
+  return (← IO.getEnv "MDSORT_STRPTIME") == some "model"
+
+/-- The platform's `strptime` over the layouts of the regenerated table (a fresh `struct tm` per call). -/
+def strptimeFFIEnv (s : Bytes) : Option (Model.Tm × Bytes) :=
   Gen.dateFormats.findSome? fun f =>
     let r := strptimeFFI f.toUTF8 (ba s)
     if r.size == 7 then
@@ -254,8 +266,23 @@ def strptimeEnv (s : Bytes) : Option (Model.Tm × Bytes) :=
       some ({ year := year, mon := g 2, mday := g 3, hour := g 4, min := g 5, sec := g 6 }, s.drop (u 0).toNat)
     else none
 
+def strptimeEnv (s : Bytes) : Option (Model.Tm × Bytes) :=
+  if strptimeByModel then Model.timeparseC s else strptimeFFIEnv s
+
+def tmS : Option (Model.Tm × Bytes) → Bytes → String
+  | none, _ => "NONE"
+  | some (tm, rest), s => s!"OK {s.length - rest.length} {tm.year} {tm.mon} {tm.mday} {tm.hour} {tm.min} {tm.sec}"
+
 def zoneEnv (now : Int) (name : Bytes) : Option Int :=
   some ((zoneFFI (ba name) now.toNat.toUInt64).toNat - 2147483648 : Int)
+
+/-- `time_format` (time.c): `localtime` + `strftime` with the first date format, in the zone `tz` (empty: TZ unset). -/
+def timeFormatEnv (tz : Bytes) (t : Int) : Option Bytes :=
+  match Gen.dateFormats.head? with
+  | none => none
+  | some f =>
+    let r := timefmtFFI f.toUTF8 (ba tz) (t + 4611686018427387904).toNat.toUInt64
+    if (r[0]?).getD 0 == 1 then some ((r.toList.drop 1).map fun c => c.toNat.toUInt8) else none
 
 /-- The value of `exec(argv, -1)` for the programs the unit harness knows: `true`, `false`, and the injectable outcomes
 `vstatus:...` of harness/unit/h_expr.c, mapped by the transcription of `exec()`'s status handling (`Model.execValue`:
@@ -494,14 +521,42 @@ def handleSmall (side op : String) (args : List Bytes) : Option String :=
   match side, op, args with
   | "M", "tzoff", [s] => some (optIntS (Model.tzoff s))
   | "M", "tparse", date :: now :: _ =>
-    some (optIntS (Model.timeParse strptimeEnv (zoneEnv (asInt now)) date))
-  | "S", "tparse", date :: now :: _ =>
+    some (optIntS (Model.timeParse strptimeFFIEnv (zoneEnv (asInt now)) date))
+  -- the same with the executable model of strptime / timeparse (Model/Strptime.lean) in the place of the platform's
+  | "M", "tparsec", date :: now :: _ =>
+    some (optIntS (Model.timeParse Model.timeparseC (zoneEnv (asInt now)) date))
+  -- strp <format> <string>: one `strptime` call on a zeroed `struct tm`; model / platform (FFI)
+  | "M", "strp", [fmt, s] => some (tmS (Model.strptimeC fmt s) s)
+  | "S", "strp", [fmt, s] =>
+    let r := strptimeFFI (ba fmt) (ba s)
+    if r.size == 7 then
+      let u (i : Nat) : UInt32 := (r[i]?).getD 0
+      let year : Int := if u 1 > 0x7fffffff then ((u 1).toNat : Int) - 4294967296 else (u 1).toNat
+      some s!"OK {u 0} {year} {u 2} {u 3} {u 4} {u 5} {u 6}"
+    else some "NONE"
+  -- timeparse <string>: the loop over `formats[]` writing into one `struct tm`; model / platform (FFI, fresh `struct tm` per layout)
+  | "M", "timeparse", [s] => some (tmS (Model.timeparseC s) s)
+  | "S", "timeparse", [s] => some (tmS (strptimeFFIEnv s) s)
+  -- rfcdate <dow|-> <day> <month> <year> <hour> <minute> <second|-> <+|-> <zone hh> <zone mm>
+  --         <fwsDow> <dowCase> <fwsDay> <one digit 0|1> <fwsMonth> <monCase> <fwsYear> <fwsTime> <fwsZone> <trailer>
+  -- the RFC 5322 printer and instant (Spec/Rfc5322Date.lean): `<W|N> <text> <instant>`, W = `Spec.WellFormed`
+  | "S", "rfcdate", [dow, day, mon, year, hour, mi, sec, sign, zh, zm, w0, dc, w1, one, w2, mc, w3, w4, w5, tr] =>
+    let optN (b : Bytes) : Option Nat := if b.isEmpty then none else some (asNat b)
+    let mask (b : Bytes) : List Bool := b.map (· == 49)
+    let dt : Spec.DateTime := { dayOfWeek := optN dow, day := asNat day, month := asNat mon, year := asNat year, hour := asNat hour,
+                                minute := asNat mi, second := optN sec, zonePlus := sign == [43], zoneHour := asNat zh, zoneMinute := asNat zm }
+    let l : Spec.DateLayout := { fwsDow := w0, dowCase := mask dc, fwsDay := w1, dayOneDigit := one == [49], fwsMonth := w2, monCase := mask mc,
+                                 fwsYear := w3, fwsTime := w4, fwsZone := w5, trailer := tr }
+    some s!"{if decide (Spec.WellFormed dt l) then "W" else "N"} {toHex (Spec.renderDate dt l)} {Spec.instant dt}"
+  | "S", "tparse", date :: now :: _ | "S", "tparsec", date :: now :: _ =>
     -- specification: platform strptime + platform timegm, minus the zone
-    match strptimeEnv date with
+    match strptimeFFIEnv date with
     | none => some "NONE"
     | some (tm, rest) =>
       let t : Int := ((timegmFFI tm.year.toNat.toUInt32 tm.mon.toNat.toUInt32 tm.mday.toNat.toUInt32
                         tm.hour.toNat.toUInt32 tm.min.toNat.toUInt32 tm.sec.toNat.toUInt32).toNat : Int) - 1099511627776
+      -- tparsec: -1 is the error value of timegm(3) (the civil time 1969-12-31 23:59:59; hypothesis `hne` / `Covered` of the theorems)
+      if op == "tparsec" && t == -1 then some "NONE" else
       let z := rest.drop (nspaces rest)
       match Model.tzoff z with
       | some off => some (optIntS (some (t - off)))
@@ -576,7 +631,9 @@ configuration argument could not be read) together with "some rule discards" (fo
 def conformWith (envB filesB devsB input traceB : Bytes)
     (mk : Model.PEnv → Bool → Model.EvalOracles → Model.Files → Option (Model.Prog (Nat × Model.MainSt) × Bool)) : String :=
     let ew := Driver.words (Driver.asText envB)
-    match ew with
+    -- optional 12th word: the TZ the run had (hex; `-` = unset), for `time_format`
+    let tzW : Option Bytes := (ew[11]?).bind Driver.unhex
+    match ew.take 11 with
     | [now, pid, host, random, tmpdir, home, confpath, dry, syn, sin, confok] =>
       match Driver.unhex host, Driver.unhex tmpdir, Driver.unhex home, Driver.unhex confpath with
       | some host, some tmpdir, some home, some confpath =>
@@ -609,7 +666,12 @@ def conformWith (envB filesB devsB input traceB : Bytes)
             files := indexed.map fun e => (e.2, { data := e.1.2.2, durable := e.1.2.2 }),
             mtimes := indexed.map fun e => (e.2, mtimes.getD e.2 0),
             nextFid := files.length, handles := [.other, .other, .other], devs := devs, trace := [] }
-          let orc : Model.EvalOracles := { rx := rxFFI, strptime := strptimeEnv, zoneName := zoneEnv env.now }
+          let tzB : Bytes := tzW.getD []
+          let orc : Model.EvalOracles :=
+            { rx := rxFFI, strptime := strptimeEnv, zoneName := (zoneEnv env.now), timeFormat := (timeFormatEnv tzB) }
+          -- the ghost allowance of the `readdir` loops: the length of the observed trace always suffices
+          -- (`C04_fuel_suffices_conform`), so a `done` answer is never a walk truncated by the model's fuel
+          let env : Model.PEnv := { env with extraFuel := trace.length }
           match mk env (confok == "1") orc files with
           | none => "BADSCENARIO"
           | some (prog, discards) =>
@@ -622,6 +684,8 @@ def conformWith (envB filesB devsB input traceB : Bytes)
             let tail := match rest with
               | [] => ""
               | x :: _ => s!" EXTRA {rest.length} next={Driver.callStr x.1}"
+            -- a `readdir` loop of the model ran out of fuel: from there on the model's run is a truncation of mdsort's
+            if st.fuelOut then s!"FUELOUT exit={status} calls={w.trace.length}{tail}" else
             s!"OK exit={status} reject={st.reject}{tail} FS {fsDump w} LOG {String.intercalate "," (st.log.map Driver.hex)}"
           | .diverge pos exp got =>
             s!"DIVERGE pos={pos} expected=[{Driver.callStr exp}] got=[{match got with | some c => Driver.callStr c | none => "end-of-trace"}]"
@@ -1019,6 +1083,12 @@ def handle (side op : String) (args : List String) : String :=
     (match Model.readenv { home := opt home, pwdir := none, tmpdir := opt tmpdir, tz := none, pathTmp := "/tmp/".toUTF8.toList } with
      | .ok (h, t, _) => s!"OK {toHex h} {toHex t}"
      | .error _ => "EXIT 1")
+  | "M", "renvz", some [home, tmpdir, tz] =>
+    -- readenv with TZ as well: the three copies, the state of ev_tz; what readenv does not assign is never touched by the model
+    let opt (b : Bytes) : Option Bytes := if b == [126] then none else some b
+    (match Model.readenv { home := opt home, pwdir := none, tmpdir := opt tmpdir, tz := opt tz, pathTmp := "/tmp/".toUTF8.toList } with
+     | .ok (h, t, z) => s!"OK {toHex h} {toHex t} {Model.tzState z} {toHex (z.getD [])} INTACT"
+     | .error _ => "EXIT 1")
   | "S", "lbuf", some as => lbufSpec as
   | "M", "isbackref", some [s] =>
     match Model.isBackref s with
@@ -1051,12 +1121,24 @@ def handle (side op : String) (args : List String) : String :=
   | "M", "b64n", some [s, n] => optHex (Model.b64pton s n.length)
   | "M", "r2047", some [s] => toHex (Model.rfc2047Decode s)
   | "S", "r2047", some [s] => toHex (cstr (Spec.rfc2047 s))
+  -- C16, RFC readings (Spec/DecodeRFC.lean): the `S` side answers only on the domain of C16_qp_vs_rfc /
+  -- C16_rfc2047_vs_rfc (NOTWF elsewhere); the `...all` / `r2047pw` ops evaluate the RFC readings on any input
+  | "M", "qprfc", some [s] => toHex (Model.qpDecode s)
+  | "S", "qprfc", some [s] => if Spec.QpLFOnly s then toHex (cstr (Spec.qpRFC false s)) else "NOTWF"
+  | "M", "qphrfc", some [s] => toHex (Model.qpLoop true s [])
+  | "S", "qphrfc", some [s] => if Spec.QpLFOnly s then toHex (Spec.qpRFC true s) else "NOTWF"
+  | "M", "r2047rfc", some [s] => toHex (Model.rfc2047Decode s)
+  | "S", "r2047rfc", some [s] => if Spec.WellFormed2047 s then toHex (cstr (Spec.rfc2047RFC s)) else "NOTWF"
+  | "S", "qprfcall", some [s] => toHex (cstr (Spec.qpRFC false s))
+  | "S", "qphrfcall", some [s] => toHex (Spec.qpRFC true s)
+  | "S", "r2047rfcall", some [s] => toHex (cstr (Spec.rfc2047RFC s))
+  | "S", "r2047pw", some [s] => toHex (cstr (Spec.rfc2047PerWord s))
   | "S", "eval", some as => handleSpecEval as
   | "S", "hcond", some as => handleSpecHcond as
   | "S", "evalatt", some as => handleSpecEvalAtt as
   | sd, "interp", some as => handleInterp sd as
   | sd, o, some as =>
-    if ["tzoff", "tparse", "flagsp", "flagss", "msgflags", "pslice", "pjoin", "dest"].contains o then
+    if ["tzoff", "tparse", "tparsec", "strp", "timeparse", "rfcdate", "flagsp", "flagss", "msgflags", "pslice", "pjoin", "dest"].contains o then
       match handleSmall sd o as with
       | some r => r
       | none => "NOTWF"
